@@ -385,6 +385,53 @@ pub fn with_clause(w: &With) -> WithClause {
     wc
 }
 
+fn add_joins(q: &mut SelectStatement, s: &Sel) {
+    for j in &s.joins {
+        let jt = match j.kind {
+            JoinKind::Join => JoinType::Join,
+            JoinKind::Inner => JoinType::InnerJoin,
+            JoinKind::Left => JoinType::LeftJoin,
+            JoinKind::Right => JoinType::RightJoin,
+            JoinKind::Full => JoinType::FullOuterJoin,
+            JoinKind::Cross => JoinType::CrossJoin,
+        };
+        let cond = conj_cond(&j.on);
+        if j.lateral {
+            if let From_::Sub(sq, al) = &j.from {
+                q.join_lateral(jt, sel(sq), a(al), cond);
+                continue;
+            }
+        }
+        let specific = route(2) == 0;
+        match (&j.from, j.kind, specific) {
+            (From_::Sub(sq, al), _, true) => {
+                q.join_subquery(jt, sel(sq), a(al), cond);
+            }
+            (From_::Table(t, Some(al)), _, true) => {
+                q.join_as(jt, a(t), a(al), cond);
+            }
+            (From_::Table(t, None), JoinKind::Left, true) => {
+                q.left_join(a(t), cond);
+            }
+            (From_::Table(t, None), JoinKind::Inner, true) => {
+                q.inner_join(a(t), cond);
+            }
+            (From_::Table(t, None), JoinKind::Right, true) => {
+                q.right_join(a(t), cond);
+            }
+            (From_::Table(t, None), JoinKind::Full, true) => {
+                q.full_outer_join(a(t), cond);
+            }
+            (From_::Table(t, None), JoinKind::Cross, true) => {
+                q.cross_join(a(t), cond);
+            }
+            (f, _, _) => {
+                q.join(jt, table_ref(f), cond);
+            }
+        }
+    }
+}
+
 pub fn sel(s: &Sel) -> SelectStatement {
     let mut q = match route(3) {
         0 => SelectStatement::new(),
@@ -477,6 +524,13 @@ pub fn sel(s: &Sel) -> SelectStatement {
             }
         }
     }
+    // joins may be declared before the FROM tables; from_clear() removes the FROM tables and nothing else
+    let joins_first = !s.from.is_empty() && !s.joins.is_empty() && route(6) == 0;
+    if joins_first {
+        q.from(a("zz_discarded"));
+        add_joins(&mut q, s);
+        q.from_clear();
+    }
     for f in &s.from {
         add_from(&mut q, f);
     }
@@ -496,49 +550,8 @@ pub fn sel(s: &Sel) -> SelectStatement {
     if let Some((system, pct, rep)) = &s.sample {
         q.table_sample(if *system { SampleMethod::SYSTEM } else { SampleMethod::BERNOULLI }, *pct, *rep);
     }
-    for j in &s.joins {
-        let jt = match j.kind {
-            JoinKind::Join => JoinType::Join,
-            JoinKind::Inner => JoinType::InnerJoin,
-            JoinKind::Left => JoinType::LeftJoin,
-            JoinKind::Right => JoinType::RightJoin,
-            JoinKind::Full => JoinType::FullOuterJoin,
-            JoinKind::Cross => JoinType::CrossJoin,
-        };
-        let cond = conj_cond(&j.on);
-        if j.lateral {
-            if let From_::Sub(sq, al) = &j.from {
-                q.join_lateral(jt, sel(sq), a(al), cond);
-                continue;
-            }
-        }
-        let specific = route(2) == 0;
-        match (&j.from, j.kind, specific) {
-            (From_::Sub(sq, al), _, true) => {
-                q.join_subquery(jt, sel(sq), a(al), cond);
-            }
-            (From_::Table(t, Some(al)), _, true) => {
-                q.join_as(jt, a(t), a(al), cond);
-            }
-            (From_::Table(t, None), JoinKind::Left, true) => {
-                q.left_join(a(t), cond);
-            }
-            (From_::Table(t, None), JoinKind::Inner, true) => {
-                q.inner_join(a(t), cond);
-            }
-            (From_::Table(t, None), JoinKind::Right, true) => {
-                q.right_join(a(t), cond);
-            }
-            (From_::Table(t, None), JoinKind::Full, true) => {
-                q.full_outer_join(a(t), cond);
-            }
-            (From_::Table(t, None), JoinKind::Cross, true) => {
-                q.cross_join(a(t), cond);
-            }
-            (f, _, _) => {
-                q.join(jt, table_ref(f), cond);
-            }
-        }
+    if !joins_first {
+        add_joins(&mut q, s);
     }
     add_wheres(&mut q, &s.wheres);
     if route(4) == 0 {
